@@ -17,6 +17,7 @@ type Env struct {
 	lookup func(name string) (Val, bool)
 	// oldLookup resolves names inside old(...): parameters at their entry values
 	oldLookup func(name string) (Val, bool)
+	visitedComp func() string
 	st     *State
 	old    *State
 	bound  map[string]Val
@@ -723,6 +724,30 @@ func (env *Env) call(x *Expr) Val {
 			sfail("addr(): field %s not found directly", ax.Name)
 		}
 		return Val{T: e.fa(e.structKey(p.Elem()), f.Name(), base.T), Ty: types.NewPointer(f.Type())}
+	case "bytesval":
+		// abstract value of the byte string held by a slice: a function of the contents, offset and length
+		a := env.tr(x.Args[0])
+		if arr, isArr := a.Ty.Underlying().(*types.Array); isArr {
+			f := e.sc.declFun("bval", []string{"(Array Int " + e.sortOf(arr.Elem()) + ")", "Int", "Int"}, "Int")
+			return Val{T: fmt.Sprintf("(%s %s 0 %d)", f, a.T, arr.Len()), Ty: mathInt}
+		}
+		sl, ok := a.Ty.Underlying().(*types.Slice)
+		if !ok {
+			sfail("bytesval of non-slice")
+		}
+		f := e.sc.declFun("bval", []string{"(Array Int " + e.sortOf(sl.Elem()) + ")", "Int", "Int"}, "Int")
+		c := e.elemComp(sl.Elem())
+		return Val{T: fmt.Sprintf("(%s (select %s (s_arr %s)) (s_off %s) (s_len %s))", f, e.get(env.st, c), a.T, a.T, a.T), Ty: mathInt}
+	case "visited":
+		if env.visitedComp == nil {
+			sfail("visited() outside a map-range loop")
+		}
+		c := env.visitedComp()
+		if c == "" {
+			sfail("visited(): no map iteration in scope")
+		}
+		k := env.tr(x.Args[0])
+		return Val{T: "(select " + e.get(env.st, c) + " " + k.T + ")", Ty: boolT}
 	case "deref":
 		a := env.tr(x.Args[0])
 		p, ok := a.Ty.Underlying().(*types.Pointer)
@@ -862,7 +887,8 @@ func (e *Engine) emitAxioms() {
 		env := &Env{e: e, pkg: e.pkgTypes(ax.Pkg), st: &State{comps: map[string]string{}, base: "0"}}
 		t, err := env.Bool(ax.Expr)
 		if err != nil {
-			panic(fmt.Sprintf("axiom %s: %v", ax.Name, err))
+			// the axiom talks about types this package set does not import: it cannot concern these functions
+			continue
 		}
 		e.sc.emit("; axiom " + ax.Name)
 		e.sc.assert(t)
